@@ -9,14 +9,19 @@ PROPS["C11"] = dict(
          "every max(16, live/4)-th single call, every op of the list (beyond 1024 keys: every bulk op; a bulk op stands for up to Keys calls, a churn up to 9*Keys), every "
          "final Close and the end of the case. non-trivial = an "
          "iterator was closed on, or advanced off, an entry that was removed while it was parked there. "
-         "LRU part: the C08 case generator (all three cache shapes, capacities 1-8 and 64) plus long histories = a drawn pattern of up to 61 calls heavy on "
+         "LRU part: the C08 case generator (all four cache shapes - also the one with an interface-typed value and creations that return nil -, capacities 1-8, 64 and the 'unbounded' ones up to math.MaxInt, for which the checkpoint bound is computed without overflow) plus long histories = a drawn pattern of up to 61 calls heavy on "
          "Clear/Remove/re-insert, repeated with a rotating key shift to 10^3..10^5 calls (quick at most 2*10^4), capacities 1..8, including re-entrant create functions (nested calls on other keys, as in C08) and caller-recycled PK buffers in the ecache shape; after construction, after "
          "every call and after every epilogue call VerifWalk must report: list well formed, refSum==0, deleted==0, nodes==resident+1, resident<=capacity, "
          "in-flight table empty; at every 1000th call nodes<=capacity+1 (independent of the history length). non-trivial = a Clear of a non-empty cache "
          "followed by an insertion and an eviction. A disagreement of the functional oracle is left to C10/C08; the case continues on structure only. "
+         "LRU part under concurrency (unit lru-conc, p_lru/conc.go): C09's squeezed mode - 3..5 workers on 1..3 keys, capacity mostly 1-2 (or unbounded), creations parked on harness gates, decision lists on the real clock, and SQUEEZES: the harness takes the cache's own "
+         "mutex (overlay accessor VerifWithLock), completes a parked creation other callers wait for and fires 1..3 overtakers behind it (the insertion of another parked creation, which evicts; Remove; Clear; GetOrCreate), so that the mutex, handed over in arrival "
+         "order, serves creator, overtakers and only then the woken waiters - judged on structure only: at every quiescent point (every busy worker parked in its create function, returned, or waiting for a parked creation) VerifWalk must report "
+         "resident <= capacity, nodes == resident+1, refSum == 0, deleted == 0, list well formed, in-flight table == creations parked; the same after every call has returned, and nothing resident after the final Clear. Functional disagreements (ledger, linearizability) "
+         "are C09's business: the case is abandoned (class abandoned_functional_divergence). non-trivial there = a squeeze on a creation with waiters. "
          "Reachability part (units map-reach, lru-reach; p_map/reach.go, no hook): case = (container kind, slots, capacity, op list). Kinds: iterable.Map[*Obj,*Obj], iterable.Map[struct key holding a pointer, struct value holding a pointer], "
          "lru.Cache[*Obj,*Obj], lru.ECache[*Obj PK, comparable struct inner key holding a pointer, *Obj], lru.ExpirableCache[*Obj,*Obj]; slots from {8,64,200,1000,4000}, one case in 12 20000 (thorough: or 100000); cache capacity from "
-         "{slots, 2*slots, slots/2, slots/10}. Ops (slot ranges modulo slots, every list executable): add = insert a FRESH key/value/PK object for every absent slot of a range; thin = remove the present slots of a range except every stride-th "
+         "{slots, 2*slots, slots/2, slots/10}, one cache case in ten from {math.MaxInt, math.MaxInt-1, 2^40, 2^31, 2^16} (a cache that never evicts: entries leave by Remove / Clear / expiry replacement only; same bounds). Ops (slot ranges modulo slots, every list executable): add = insert a FRESH key/value/PK object for every absent slot of a range; thin = remove the present slots of a range except every stride-th "
          "(stride from {0=none survives,2,3,7,16,50,63,64,65,100,128,257,1000} or anything up to slots, any offset, either direction); touch = cache hit (unlink+relink) / map Remove+Add; clear = Clear() of the cache / the same iterator-and-Remove loop on the map; "
          "expire (expirable kind: the next touch replaces the entry); maps: open 1..8 iterators spaced over the map, advance all, close all; gc = measurement point; take / put = remove the first 1..64 present / insert into the first 1..64 absent slots "
          "found from a drawn position (a cache at capacity evicts for each put); flight (caches) = for each of the first N (1..3 or 9..64) absent slots: GetOrCreate(fresh key) runs on a second goroutine and is parked inside the create function, while it is "
@@ -42,12 +47,15 @@ PROPS["C11"] = dict(
                  "overtaking a creation are ordinary calls of the documented API made from another goroutine; their return values and the residency of a creation that succeeds afterwards are C08/C09's business and not asserted here",
                  "reachability part: the objects are at least 56 bytes and hold a pointer (never tiny-allocated, so no two share a block); nothing else in the test process refers to them: ops run in functions that have returned before the measurement, "
                  "the case record is plain integers",
-                 "invariants are read through the overlay accessors (*Map).VerifWalk and (*ECache).VerifWalk; if they do not compile the units report inconclusive"],
+                 "invariants are read through the overlay accessors (*Map).VerifWalk and (*ECache).VerifWalk; if they do not compile the units report inconclusive; unit lru-conc also needs (*ECache).VerifWithLock (runs a harness function under the cache's mutex, changes nothing) and "
+                 "orders critical sections through sync.Mutex's hand-over in arrival order (starvation mode, waiters older than 1 ms): a strong tendency, not a guarantee - a missed squeeze can hide a defect, never invent one; the structural invariants are "
+                 "evaluated under the cache's mutex at moments when no call is between its create function and its insertion"],
     units=[
         dict(name="map-exhaustive", pkg="p_map", hooks=["iterable"], run="^TestC11MapExhaustive$", shards=(8, 16), timeout=(200, 1500)),
         dict(name="map-rapid", pkg="p_map", hooks=["iterable"], run="^TestC11MapRapid$", checks=(20000, 200000), shards=(2, 16), timeout=(200, 1500)),
         dict(name="lru-rapid", pkg="p_lru", hooks=["iterable", "lru"], run="^TestC11LruRapid$", checks=(20000, 100000), shards=(2, 16), timeout=(200, 900)),
         dict(name="lru-long", pkg="p_lru", hooks=["iterable", "lru"], run="^TestC11LruLong$", checks=(60, 400), shards=(4, 16), timeout=(200, 900)),
+        dict(name="lru-conc", pkg="p_lru", hooks=["iterable", "lru"], run="^TestC11LruConc$", checks=(200, 1200), shards=(4, 16), timeout=(200, 900), shrinktime="10s"),
         dict(name="map-reach", pkg="p_map", hooks=[], run="^TestC11ReachMap$", checks=(150, 700), shards=(4, 8), timeout=(200, 900), env={"GOMAXPROCS": "2"}, shrinktime="8s"),
         dict(name="lru-reach", pkg="p_map", hooks=[], run="^TestC11ReachLru$", checks=(150, 700), shards=(4, 8), timeout=(200, 900), env={"GOMAXPROCS": "2"}, shrinktime="8s"),
     ],
@@ -60,5 +68,6 @@ LEVEL_TEXT["C11"] = (
     "not depend on the history length. What is kept outside that list (free lists, slabs, stale fields) is asked of the garbage collector: in generated histories whose peak is far above "
     "the final size (fill, thin out to evenly spread survivors, Clear and re-use; maps with parked iterators; all three caches) the keys/values/PKs of removed entries, held by the harness through "
     "weak pointers only, must be collected - all values and primary keys, all but 8 keys, plus the open iterators, whatever the size - while the container is alive; the histories also end right after a removal or eviction followed by exactly one insertion, "
-    "and the caches also serve creations that are overtaken by Remove/Clear while in flight and then fail. Evidence = cases, walks, long histories, measurements; not a proof for longer histories."
+    "and the caches also serve creations that are overtaken by Remove/Clear while in flight and then fail. Under concurrency (creations parked on gates, critical sections ordered through the cache's own mutex so that "
+    "evictions, Remove and Clear land between a creator's publication and the wake-up of its waiters) the cache's resident count must stay within the capacity and its list must hold exactly the residents at every quiescent point. Evidence = cases, walks, long histories, measurements; not a proof for longer histories."
 )
